@@ -13,7 +13,7 @@ from harness.common import enc
 from harness.props import c01
 
 ID = "C02"
-LEAN_MODULES = ["PptxModel.Props.C02"]
+LEAN_MODULES = ["PptxModel.Props.C02", "PptxModel.Props.C02P"]
 RULE = (
     "seeded histories of 4..30 public-API operations (add slide from any layout, text box / auto shape / picture from a "
     "small image pool / movie with poster / category and XY chart / replace_data / OLE object / group, notes-slide access, "
@@ -369,7 +369,9 @@ def do_op(rng, prs, st):
         return rng.choice(sl)
 
     if r < 0.10:
-        prs.slides.add_slide(prs.slide_layouts[rng.randrange(len(prs.slide_layouts))])
+        lay = prs.slide_layouts[rng.randrange(len(prs.slide_layouts))]
+        st["last"] = {"pres": prs.part, "layout": lay.part, "listed": (lambda l: 0 if l is None else len(l))(prs.part._element.sldIdLst)}
+        prs.slides.add_slide(lay)
         return "add_slide"
     if r < 0.20:
         s = a_slide(); tb = s.shapes.add_textbox(0, 0, 100, 100); tb.text_frame.text = "t%d\nx" % rng.randint(0, 99)
@@ -378,7 +380,10 @@ def do_op(rng, prs, st):
         a_slide().shapes.add_shape(MSO_SHAPE.OVAL, 0, 0, 50, 50).text_frame.text = "o"
         return "add_shape"
     if r < 0.35:
-        a_slide().shapes.add_picture(io.BytesIO(rng.choice(imgs())), 0, 0)
+        s_ = a_slide(); blob = rng.choice(imgs())
+        st["last"] = {"slide": s_.part, "blob": blob}
+        st["pre_after_slide_pick"] = snapshot(prs)     # a_slide() may itself have added a slide: the call starts here
+        s_.shapes.add_picture(io.BytesIO(blob), 0, 0)
         return "add_picture"
     if r < 0.39:
         a_slide().shapes.add_movie(io.BytesIO(b"movie-bytes-%d" % rng.randint(0, 2)), 0, 0, 100, 100,
@@ -392,7 +397,10 @@ def do_op(rng, prs, st):
         else:
             cd = XyChartData(); se = cd.add_series("xy"); se.add_data_point(1, 2); se.add_data_point(2, 3)
             ct = XL_CHART_TYPE.XY_SCATTER
-        gf = a_slide().shapes.add_chart(ct, 0, 0, 100, 100, cd)
+        s_ = a_slide()
+        st["last"] = {"slide": s_.part}
+        st["pre_after_slide_pick"] = snapshot(prs)
+        gf = s_.shapes.add_chart(ct, 0, 0, 100, 100, cd)
         st["charts"].append(gf.chart)
         return "add_chart"
     if r < 0.50 and st["charts"]:
@@ -503,13 +511,63 @@ def do_op(rng, prs, st):
     return "rejected-calls"
 
 
+PRED = []
+
+
+def predicted(ctx, prs, st, desc, pre, pre_parts, post, post_parts, ids):
+    """the call's effect on the package graph, predicted by `Model/PkgOps` from the graph BEFORE it: a line for the driver and
+    the real graph after it (parts keyed by identity); None when the call is outside the predicted subset"""
+    from pptx.parts.chart import ChartPart
+    from pptx.parts.embeddedpackage import EmbeddedXlsxPart
+    from pptx.parts.image import ImagePart
+
+    last = st.get("last") or {}
+    if any(d[0] in ("rename", "dropParts") for d in deltas(pre, post)):
+        ctx.count("predict-skipped(" + ("slide parts renumbered in the same call" if desc == "add_slide" else "other") + ")")
+        return None
+    newk = [k for k in post if k not in pre]
+    if desc == "add_slide":
+        if len(newk) != 1:
+            return None
+        op = "slide %d %d %d %d" % (ids(id(last["pres"])), ids(id(last["layout"])), ids(newk[0]), last["listed"])
+    elif desc == "add_picture":
+        sha = hashlib.sha1(last["blob"]).hexdigest()
+        ex = [k for k, p in pre_parts.items() if isinstance(p, ImagePart) and hashlib.sha1(p.blob).hexdigest() == sha]
+        from PIL import Image
+        ext = {"PNG": "png", "JPEG": "jpg", "GIF": "gif", "BMP": "bmp", "TIFF": "tiff"}[Image.open(io.BytesIO(last["blob"])).format]
+        if ex:
+            if newk:
+                ctx.fail("image-stored-twice", f"add_picture with bytes a part already holds added {len(newk)} part(s)", {"hist": desc})
+                return None
+            op = "picture %d %d 0 %s" % (ids(id(last["slide"])), ids(ex[0]), enc(ext))
+        else:
+            if len(newk) != 1:
+                return None
+            op = "picture %d none %d %s" % (ids(id(last["slide"])), ids(newk[0]), enc(ext))
+    elif desc == "add_chart":
+        ch = [k for k in newk if isinstance(post_parts[k], ChartPart)]
+        xl = [k for k in newk if isinstance(post_parts[k], EmbeddedXlsxPart)]
+        if len(newk) != 2 or len(ch) != 1 or len(xl) != 1:
+            return None
+        op = "chart %d %d %d" % (ids(id(last["slide"])), ids(ch[0]), ids(xl[0]))
+    else:
+        return None
+    for k in newk:
+        ids(k)
+    line = "c02.predict %s %s" % (enc_snapshot(pre, ids), op)
+    want = {}
+    for item in enc_snapshot(post, ids).split(";"):
+        want[item.split("/", 1)[0]] = item
+    return line, want, {"op": op, "desc": desc}
+
+
 def run_history(ctx, rng, thorough=False):
     from pptx import Presentation
 
     prs, kind = start_deck(rng)
     st = {"charts": [], "runs": [], "actions": []}
     ids = Ids()
-    snap, _ = snapshot(prs)
+    snap, snap_parts = snapshot(prs)
     line = ["c02.hist", enc_snapshot(snap, ids)]
     hist = [kind]
     steps = []
@@ -523,9 +581,19 @@ def run_history(ctx, rng, thorough=False):
             return None
         hist.append(desc)
         ctx.count("op-" + desc)
-        new, _ = snapshot(prs)
+        new, new_parts = snapshot(prs)
         steps.append(enc_deltas(deltas(snap, new), ids))
-        snap = new
+        if desc in ("add_slide", "add_picture", "add_chart"):
+            pre, pre_parts = st.pop("pre_after_slide_pick", None) or (snap, snap_parts)
+            try:
+                pr = predicted(ctx, prs, st, desc, pre, pre_parts, new, new_parts, ids)
+            except Exception as e:  # noqa
+                pr = None
+                ctx.count("predict-harness-skip:" + type(e).__name__)
+            if pr:
+                PRED.append(pr + (hist[:],))
+        st.pop("pre_after_slide_pick", None)
+        snap, snap_parts = new, new_parts
         if save_now:
             hist.append("save")
             buf = io.BytesIO()
@@ -539,9 +607,9 @@ def run_history(ctx, rng, thorough=False):
                 ctx.fail("save-raised", f"save raised {type(e).__name__}: {str(e)[:200]} after history {hist}", case)
                 return None
             ctx.count("saves")
-            after_save, _ = snapshot(prs)
+            after_save, after_parts = snapshot(prs)
             steps.append(enc_deltas(deltas(snap, after_save), ids))   # saving must be a no-op on the graph
-            snap = after_save
+            snap, snap_parts = after_save, after_parts
             zclosed(ctx, buf.getvalue(), prs, case)
             try:
                 re_ = Presentation(io.BytesIO(buf.getvalue()))
@@ -635,6 +703,18 @@ def correspond(ctx):
             ctx.disagree("ill-formed-step", {"hist": hist}, "history executed by the library", m)
     if lines:
         ctx.sample({"history": hists[0], "line": lines[0][:600]})
+    # the predicted graphs
+    pl = [p[0] for p in PRED]
+    for (line, want, meta, hist), m in zip(PRED, ctx.driver.run(pl) if pl else []):
+        ctx.traces += 1
+        ctx.case(key=("predict", line))
+        ctx.count("predicted-" + meta["desc"])
+        got = {item.split("/", 1)[0]: item for item in m.split(";")} if "/" in m else {"?": m}
+        if got != want:
+            ks = sorted(k for k in set(got) | set(want) if got.get(k) != want.get(k))
+            ctx.disagree("predicted-graph", {"op": meta["op"], "hist": hist[-6:], "parts": ks[:4]},
+                         " ; ".join(str(want.get(k)) for k in ks[:3])[:600], " ; ".join(str(got.get(k)) for k in ks[:3])[:600])
+    del PRED[:]
 
 
 def search(ctx, hints):
